@@ -32,7 +32,7 @@ def run(tier: str) -> int:
         recs += r5["recs"]
         extra = {"generated": base["generated"] + extra["generated"] + r5["generated"],
                  "distinct": base["distinct"] + extra["distinct"] + r5["distinct"]}
-    stats, fails = sc.replay(wd, "sigma", recs, 2)
+    stats, fails = sc.replay(wd, "sigma", recs, 3)
     for f in fails:
         key = json.dumps({"g": f["g"], "a": f["a"], "b": f["b"], "c": f["c"]}, sort_keys=True)
         sig = f["clause"] + (":" + f["exc"] if "exc" in f else "") + (f":ab={f['ab']}" if "ab" in f else "")
